@@ -31,7 +31,7 @@ def model_check(cfgs, timeout=2400):
     return states, trans, runs
 
 
-def orphan_runs(tier, pid, names=("split2", "chain", "map_dyn2", "diamond", "subpipe", "split10")):
+def orphan_runs(tier, pid, names=("split2", "chain", "map_dyn2", "diamond", "subpipe", "split10", "split_nothing")):
     """Restart runs in which a job fails, mrp exits, and the jobs that were
     running survive it and report later under their old attempt (directory and
     journal name).  Returns (violations of pid, coverage)."""
@@ -43,6 +43,12 @@ def orphan_runs(tier, pid, names=("split2", "chain", "map_dyn2", "diamond", "sub
     specs = []
     for p in progs:
         jobs = [j["key"] for j in psprops.expected_jobs(sem[p["name"]])]
+        # a chunk fails after its siblings have finished; the restarted mrp has to run it again
+        # before the join
+        chunkjobs = [j["key"] for j in psprops.expected_jobs(sem[p["name"]]) if j["kind"] == "main" and j["split"]]
+        for n, key in enumerate(chunkjobs[-2:]):
+            specs.append(psrun.make_spec(p, sem[p["name"]], {"kind": "slow", "slow": key.split("/")[0] + "#none", "seed": rng.randrange(1 << 30), "penv": 0.95},
+                                         name="%s#oc%d" % (p["name"], n), faults={key: "errors"}, restart=True, freeze=True))
         for n in range({"quick": 10, "thorough": 80}[tier]):
             specs.append(psrun.make_spec(p, sem[p["name"]],
                                          {"kind": "random", "seed": rng.randrange(1 << 30), "penv": rng.choice([0.5, 0.8, 0.95])},
